@@ -9,7 +9,8 @@ for d in sys.argv[1:]:
     p = Program(d, inline=False)
     for f in list(p.fns.values()) + list(p.absorbed.values()):
         if f.crate in mirinline.WORKSPACE and f.dk in ('Fn', 'AssocFn'):
-            out[mirinline.ident(f)] = {'id': list(mirinline.ident(f)), 'private': f.vis != 'Public' and not f.no_mangle, 'inputs': f.inputs, 'output': f.output}
+            out[mirinline.ident(f)] = {'id': list(mirinline.ident(f)), 'private': f.vis != 'Public' and not f.no_mangle, 'inputs': f.inputs, 'output': f.output,
+                                       'calls': sorted({'::'.join((c.get('str') or c.get('key') or '').split('::')[-2:]) for c in f.edges.get('calls', []) if 'drop' not in c})}
 open(os.path.join(os.path.dirname(__file__), '..', 'sa', 'known_fns.json'), 'w').write('[\n' + ',\n'.join(json.dumps(out[k]) for k in sorted(out)) + '\n]\n')
 adts = set()
 for d in sys.argv[1:]:
